@@ -5,6 +5,7 @@ import Blf.Codec.Determinacy
 import Blf.Spec.ObjectTypes
 import Blf.UFile
 import Blf.Queue
+import Blf.Queue32
 import Blf.FileSeq
 import Blf.Api
 /-!
@@ -324,8 +325,9 @@ def qObs (s : Queue.State) : String :=
 def handleQ (ss : Sess) (args : List String) : Sess × String :=
   let s := ss.q
   let run (op : Queue.Op) : Sess × String :=
-    if Queue.guard s op then
-      let r := Queue.step s op
+    -- the machine with the `uint32_t` counters of the code; `Queue.run32_eq_run`: = `Queue.guard` / `Queue.step` below the wrap
+    if Queue.guard32 s op then
+      let r := Queue.step32 s op
       let ret := match r.2 with
         | some (some x) => " ret=" ++ toString x
         | some none => " ret=null"
@@ -337,6 +339,9 @@ def handleQ (ss : Sess) (args : List String) : Sess × String :=
   | ["r"] => run .read
   | ["w", x] => match x.toNat? with | some k => run (.write k) | none => (ss, "bad-request")
   | ["abort"] => run .abort
+  | ["pos", a, b] => match a.toNat?, b.toNat? with
+    | some g, some p => let s' := { s with tellg := g % Queue.W, tellp := p % Queue.W }; ({ ss with q := s' }, "q ok " ++ qObs s')
+    | _, _ => (ss, "bad-request")
   | ["sfs", n] => match n.toNat? with | some k => run (.setFileSize k) | none => (ss, "bad-request")
   | ["sbs", n] => match n.toNat? with | some k => run (.setBufferSize k) | none => (ss, "bad-request")
   | _ => (ss, "bad-request")
